@@ -99,6 +99,15 @@ def streams(tier, rng):
                     qc.append(c)
                     qi[c] = (code, t[:255])
 
+        # explicit lengths, beyond 255 included (the library pushes whole program message units with their length)
+        for code in [-113, 1234]:
+            for L in [1, 2, 7, 254, 255, 256, 257, 300, 400]:
+                for extra in (0, 5):
+                    t = bytes(rng.choice(b'abc ;"') for _ in range(L + extra))
+                    c = 'EQ 2 1024|P %d %s %d 0|S|S' % (code, t.hex(), L)
+                    qc.append(c)
+                    qi[c] = (code, t[:L])
+
         def oracle2(case, out, qi=qi):
             if out.startswith('X') or case not in qi:
                 return []
